@@ -63,6 +63,11 @@ def crash_violation(prop, tag, e, trace=None):
 
 
 def run_driver(binary, args, timeout=1800, cwd=None, env=None, crash_ok=False):
+    if cwd is None:
+        # a server with an empty data directory writes relative to its working directory (SAVE in the ACL and
+        # wire sweeps): keep that inside the run's scratch directory
+        out = [args[i + 1] for i, a in enumerate(args[:-1]) if a in ("-out", "-in")]
+        cwd = os.path.dirname(out[0]) if out and os.path.isdir(os.path.dirname(out[0])) else None
     p = subprocess.run([binary] + args, capture_output=True, text=True, timeout=timeout, cwd=cwd, env=env)
     if p.returncode != 0 and crash_ok:
         first = next((x for x in (p.stderr or "").splitlines() if "panic:" in x or "fatal error" in x), None)
